@@ -2151,23 +2151,8 @@ func unmarshalTuple(info TypeInfo, data []byte, value interface{}) error {
 				p, data = readBytes(data)
 			}
 
-			v, err := elem.NewWithError()
-			if err != nil {
+			if err := unmarshalTupleElem(elem, p, rv.Field(i)); err != nil {
 				return err
-			}
-			if err := Unmarshal(elem, p, v); err != nil {
-				return err
-			}
-
-			switch rv.Field(i).Kind() {
-			case reflect.Ptr:
-				if p != nil {
-					rv.Field(i).Set(reflect.ValueOf(v))
-				} else {
-					rv.Field(i).Set(reflect.Zero(reflect.TypeOf(v)))
-				}
-			default:
-				rv.Field(i).Set(reflect.ValueOf(v).Elem())
 			}
 		}
 
@@ -2188,23 +2173,8 @@ func unmarshalTuple(info TypeInfo, data []byte, value interface{}) error {
 				p, data = readBytes(data)
 			}
 
-			v, err := elem.NewWithError()
-			if err != nil {
+			if err := unmarshalTupleElem(elem, p, rv.Index(i)); err != nil {
 				return err
-			}
-			if err := Unmarshal(elem, p, v); err != nil {
-				return err
-			}
-
-			switch rv.Index(i).Kind() {
-			case reflect.Ptr:
-				if p != nil {
-					rv.Index(i).Set(reflect.ValueOf(v))
-				} else {
-					rv.Index(i).Set(reflect.Zero(reflect.TypeOf(v)))
-				}
-			default:
-				rv.Index(i).Set(reflect.ValueOf(v).Elem())
 			}
 		}
 
@@ -2212,6 +2182,29 @@ func unmarshalTuple(info TypeInfo, data []byte, value interface{}) error {
 	}
 
 	return unmarshalErrorf("cannot unmarshal %s into %T", info, value)
+}
+
+// unmarshalTupleElem stores one tuple element into a struct field or a
+// slice/array element. Elements of interface type receive the default Go
+// type for the CQL type; any other destination is unmarshaled into directly,
+// so that every type supported by Unmarshal can be used.
+func unmarshalTupleElem(elem TypeInfo, p []byte, dst reflect.Value) error {
+	if dst.Kind() != reflect.Interface {
+		if !dst.CanAddr() {
+			return unmarshalErrorf("can not unmarshal %s into unaddressable %s", elem, dst.Type())
+		}
+		return Unmarshal(elem, p, dst.Addr().Interface())
+	}
+
+	v, err := elem.NewWithError()
+	if err != nil {
+		return err
+	}
+	if err := Unmarshal(elem, p, v); err != nil {
+		return err
+	}
+	dst.Set(reflect.ValueOf(v).Elem())
+	return nil
 }
 
 // UDTMarshaler is an interface which should be implemented by users wishing to
